@@ -74,8 +74,11 @@ class ArithmeticCrossover(VariationalOperator):
                 break
             if np.random.rand() < self.probability:
                 alpha = np.random.rand()
-                new_genomes[i] = alpha * genomes[i] + (1 - alpha) * genomes[i + 1]
-                new_genomes[i + 1] = (1 - alpha) * genomes[i] + alpha * genomes[i + 1]
+                # A blend of two parents lies between them; rounding may put it one ulp outside
+                # (e.g. alpha * 5.12 + (1 - alpha) * 5.12 > 5.12 for some alpha), i.e. outside the box.
+                lower, upper = np.minimum(genomes[i], genomes[i + 1]), np.maximum(genomes[i], genomes[i + 1])
+                new_genomes[i] = np.clip(alpha * genomes[i] + (1 - alpha) * genomes[i + 1], lower, upper)
+                new_genomes[i + 1] = np.clip((1 - alpha) * genomes[i] + alpha * genomes[i + 1], lower, upper)
             else:
                 new_genomes[i] = genomes[i]
                 new_genomes[i + 1] = genomes[i + 1]
